@@ -191,12 +191,12 @@ theorem stringOf_eq (s : List Nat) : stringOf s = some s := by
 /-! ### T-tie of the control flow: the current Go source of the hand-modelled functions is the text
 the model was written from (see Model/Atom.lean). `match` loops over the INPUT bytes `t`, `Lookup` has the
 `len(s) > maxAtomLen` guard and compares `int(a&0xff) == len(s)` without truncation. -/
-theorem gen_src_fnv : NetVerif.Gen.C42.srcFnv = NetVerif.Model.Atom.srcFnv := by decide
-theorem gen_src_match : NetVerif.Gen.C42.srcMatch = NetVerif.Model.Atom.srcMatch := by decide
-theorem gen_src_lookup : NetVerif.Gen.C42.srcLookup = NetVerif.Model.Atom.srcLookup := by decide
-theorem gen_src_atom_String : NetVerif.Gen.C42.srcAtomString = NetVerif.Model.Atom.srcAtomString := by decide
-theorem gen_src_atom_string : NetVerif.Gen.C42.srcAtomStringUnchecked = NetVerif.Model.Atom.srcAtomStringUnchecked := by decide
-theorem gen_src_String : NetVerif.Gen.C42.srcString = NetVerif.Model.Atom.srcString := by decide
+theorem gen_src_fnv : NetVerif.Gen.C42.srcFnv = NetVerif.Model.Atom.srcFnv := rfl
+theorem gen_src_match : NetVerif.Gen.C42.srcMatch = NetVerif.Model.Atom.srcMatch := rfl
+theorem gen_src_lookup : NetVerif.Gen.C42.srcLookup = NetVerif.Model.Atom.srcLookup := rfl
+theorem gen_src_atom_String : NetVerif.Gen.C42.srcAtomString = NetVerif.Model.Atom.srcAtomString := rfl
+theorem gen_src_atom_string : NetVerif.Gen.C42.srcAtomStringUnchecked = NetVerif.Model.Atom.srcAtomStringUnchecked := rfl
+theorem gen_src_String : NetVerif.Gen.C42.srcString = NetVerif.Model.Atom.srcString := rfl
 
 /-! ### Non-vacuity -/
 example : 369 ≤ named.length := by decide +kernel
